@@ -9,7 +9,7 @@ DefFw == [pid |-> "INT", at |-> "INT", dom |-> 0, mint |-> "NONE", caller |-> "N
 DefG == [pp |-> <<>>, pcc |-> <<>>, pa |-> <<>>, amts |-> <<>>, cnts |-> <<>>, params |-> 0]
 DefQ == [kind |-> "", by |-> "", pid |-> "", limit |-> 0, walk |-> "", reverse |-> FALSE, countTotal |-> FALSE,
          sp |-> "", sc |-> "", dp |-> "", dc |-> "", denom |-> ""]
-DefIn == [t |-> "", chan |-> 0, rcv |-> "", dn |-> "", base |-> "", amt |-> 0, amtc |-> "OK", mk |-> "",
+DefIn == [t |-> "", chan |-> 0, rcv |-> "", dn |-> "", base |-> "", amt |-> 0, amtd |-> <<>>, amtc |-> "OK", mk |-> "",
           fw |-> DefFw, acts |-> <<>>, raw |-> "", faults |-> <<>>, rpc |-> "", signer |-> "", pid |-> "",
           cps |-> <<>>, cpc |-> <<>>, aid |-> "", v |-> 0, denom |-> "", op |-> "", who |-> "",
           ids |-> <<>>, g |-> DefG, q |-> DefQ]
